@@ -54,7 +54,7 @@ def pool_file(k, ctx):
     return _built[k]
 
 
-ALL_METHODS = sorted(set(ops.METHODS_3D_READER + ops.METHODS_2D_READER))
+ALL_METHODS = sorted(set(ops.METHODS_3D_READER + ops.METHODS_2D_READER + ["meta"]))
 EMU_METHODS = sorted(set(ops.METHODS_EMU_3D + ["trace", "header", "attributes"]))
 
 
